@@ -533,7 +533,7 @@ fn list_items(raw: &[u8]) -> Option<Vec<Vec<u8>>> {
     Some(out)
 }
 
-fn specs(tier: Tier) -> Vec<Spec> {
+fn specs(tier: Tier, deep: bool) -> Vec<Spec> {
     let mut v = Vec::new();
     let base = |attrs: Vec<V>| Spec { attrs, second_endpoint: false, paths: 0, filter: 0, subscribe: false, mutate: 0 };
     let step = if tier == Tier::Quick { 7 } else { 1 };
@@ -593,6 +593,37 @@ fn specs(tier: Tier) -> Vec<Spec> {
             }
         }
     }
+    if deep {
+        // two octet strings, the first of every size, the second over a grid: every split of the pair
+        for a in 0..=1300usize {
+            for b in (0..=1300usize).step_by(13).chain([1usize, 1150, 1200, 1250]) {
+                v.push(base(vec![V::Bytes(a), V::Bytes(b)]));
+            }
+            // ... as a subscription's priming report and with concrete paths
+            for b in [0usize, 100, 1000] {
+                v.push(Spec { paths: 1, subscribe: true, ..base(vec![V::Bytes(a), V::Bytes(b)]) });
+            }
+        }
+        // three values over a grid of sizes
+        for a in (0..=1300usize).step_by(25) {
+            for b in (0..=1300usize).step_by(25) {
+                v.push(base(vec![V::Bytes(a), V::Bytes(b), V::Bytes(100)]));
+            }
+        }
+        // lists: every count up to 12 x every item size, alone, behind a value that fills most of a message, concrete path
+        for size in 0..=420usize {
+            for count in [4usize, 6, 7, 8, 10, 11, 12, 20] {
+                v.push(base(vec![V::List(vec![size; count]), V::U32]));
+                v.push(Spec { paths: 1, ..base(vec![V::Bytes(1000), V::List(vec![size; count])]) });
+            }
+        }
+        // lists of two alternating item sizes
+        for s1 in (0..=420usize).step_by(7) {
+            for s2 in (0..=420usize).step_by(35) {
+                v.push(base(vec![V::List(vec![s1, s2, s1, s2, s1, s2]), V::U32]));
+            }
+        }
+    }
     // the node composition changes while a (chunked or not) answer is being produced
     for mutate in 1..=5u8 {
         for size in [10usize, 500, 900] {
@@ -610,7 +641,7 @@ fn specs(tier: Tier) -> Vec<Spec> {
 }
 
 pub fn run_check(ctx: &Ctx) -> i32 {
-    let all = specs(if ctx.replay.is_some() { Tier::Thorough } else { ctx.tier });
+    let all = specs(if ctx.replay.is_some() { Tier::Thorough } else { ctx.tier }, ctx.replay.is_some() || ctx.deep());
     if let Some(p) = &ctx.replay {
         let doc: Value = serde_json::from_str(&std::fs::read_to_string(p).expect("replay file")).expect("json");
         std::env::set_var("MC_SHOW_PANICS", "1");
